@@ -152,7 +152,11 @@ func (k *checker) checkValue(e *codec.Entry, v any, enc []byte, cs Case, _ strin
 	// (5) every proper prefix fails to decode
 	if prefixes {
 		k.prefixValues.Add(1)
+		long := codec.IsLongBytes(cs.Base)
 		for n := 0; n < len(enc); n++ {
+			if long && n >= 4096 && n < len(enc)-4096 && n%65536 > 2 && n%65536 < 65534 && n%251 != 0 {
+				continue // long-byte-string bases: prefixes near both ends, around every 64 KiB boundary and every 251st
+			}
 			_, err, p, st := safeDecode(e, enc[:n])
 			if p != nil {
 				k.violate("decode-panic", e, cs, where, "decoding a %d-byte prefix of a %d-byte encoding panicked: %v\n%s", n, len(enc), p, st)
@@ -252,6 +256,10 @@ func (k *checker) runBase(e *codec.Entry, b codec.Base) {
 	k.checkValue(e, b.V, enc, cs, "(base)", true)
 
 	muts := e.Mutations(b)
+	if codec.IsLongBytes(b.Label) {
+		muts = nil // base-level oracles only (round trip, canonicity, layout, prefixes): deviations are covered on the small bases
+		k.c.Count("long_byte_string_bases", 1)
+	}
 	one := func(ms []*codec.Mutation, single bool) {
 		paths := make([]string, len(ms))
 		for i, m := range ms {
@@ -406,7 +414,8 @@ func run(c *vf.Ctx) {
 	// big units first for better load balance
 	sizes := map[any]int{}
 	for _, u := range units {
-		sizes[u.b.V] = len(u.e.Encode(u.b.V))
+		eb, _ := u.e.SafeEncode(u.b.V)
+		sizes[u.b.V] = len(eb)
 	}
 	sort.SliceStable(units, func(i, j int) bool { return sizes[units[i].b.V] > sizes[units[j].b.V] })
 	c.Set("inventory_entries", len(codec.Entries()))
@@ -463,7 +472,8 @@ func selectBases(c *vf.Ctx, e *codec.Entry, bs []codec.Base) []codec.Base {
 		return bs
 	}
 	// keep the maxReal chain values with the longest encodings plus none of the rest
-	sort.SliceStable(realIdx, func(i, j int) bool { return len(e.Encode(bs[realIdx[i]].V)) > len(e.Encode(bs[realIdx[j]].V)) })
+	encLen := func(v any) int { b, _ := e.SafeEncode(v); return len(b) }
+	sort.SliceStable(realIdx, func(i, j int) bool { return encLen(bs[realIdx[i]].V) > encLen(bs[realIdx[j]].V) })
 	keep := map[int]bool{}
 	for _, i := range realIdx[:maxReal] {
 		keep[i] = true
@@ -501,12 +511,14 @@ func sampleCases(c *vf.Ctx) {
 		bs := e.Bases()
 		b := bs[len(bs)-1]
 		ms := e.Mutations(b)
-		cs := Case{Entry: name, Base: b.Label, Hex: shortHex(e.Encode(b.V))}
+		eb0, _ := e.SafeEncode(b.V)
+		cs := Case{Entry: name, Base: b.Label, Hex: shortHex(eb0)}
 		if len(ms) > 0 {
 			m := ms[len(ms)/2]
 			m.Apply()
 			cs.Paths = []string{m.Path}
-			cs.Hex = shortHex(e.Encode(b.V))
+			eb1, _ := e.SafeEncode(b.V)
+			cs.Hex = shortHex(eb1)
 			m.Undo()
 		}
 		c.Sample(cs)
